@@ -53,10 +53,19 @@ func (fr *Frame) evalBool(sc *Scope, e Expr) Term {
 
 // coerce turns a constant into a value of the type of other.
 func (fr *Frame) coerce(c Val, other Val) Val {
+	if c.K == KCondConst {
+		a := fr.coerce(c.Elems[0], other)
+		b := fr.coerce(c.Elems[1], other)
+		m, ok := iteVal(c.C[0], a, b)
+		if !ok {
+			cfail("cannot type conditional constant")
+		}
+		return m
+	}
 	if c.K != KConst {
 		return c
 	}
-	if other.K == KConst {
+	if other.K == KConst || other.K == KCondConst {
 		return scalar(types.Typ[types.Int], IntBig(c.Big.(*bigInt).v))
 	}
 	if other.K == KNormal && len(other.C) == 1 {
@@ -214,6 +223,9 @@ func (fr *Frame) evalExpr(sc *Scope, e Expr) Val {
 		c := fr.evalBool(sc, x.C)
 		a := fr.evalExpr(sc, x.A)
 		b := fr.evalExpr(sc, x.B)
+		if (a.K == KConst || a.K == KCondConst) && (b.K == KConst || b.K == KCondConst) && !isNilConst(a) && !isNilConst(b) {
+			return Val{K: KCondConst, C: []Term{c}, Elems: []Val{a, b}}
+		}
 		a, b = fr.coerce(a, b), fr.coerce(b, a)
 		m, ok := iteVal(c, a, b)
 		if !ok {
@@ -762,6 +774,18 @@ func (fr *Frame) evalCall(sc *Scope, x *ECall) Val {
 			cfail("fresh() needs a pre-state")
 		}
 		return scalar(boolT, And(Not(Eq(v.C[0], Nil)), fr.isFreshSince(fr.refOf(v), sc.old.alloc)))
+	case "final":
+		// final(x): the value of local variable x at the return (postconditions only)
+		argn(1)
+		id, ok := x.Args[0].(*EIdent)
+		if !ok {
+			cfail("final() expects a local variable name")
+		}
+		v, ok := fr.lookupLocal(sc, id.Name)
+		if !ok {
+			cfail("final(%s): no such local", id.Name)
+		}
+		return v
 	case "loopOld":
 		// loopOld(e): the value of e when the enclosing loop was entered
 		argn(1)
